@@ -336,4 +336,14 @@ example :
     (r.1.getSlot 3).map (fun st => (st.parents.lookup 7, st.sent)) = some (some true, [7]) ∧
     Event.s2n 3 7 ∈ r.2 := by decide +kernel
 
+/-! An observation (not a violation of the statement, which asks for a certificate the node *holds*): the pool has no
+    certificate for the genesis block and `is_notar_fallback_or_stronger` does not special-case it (the parent-ready tracker
+    does), so a child of genesis is never safe-to-notar: it waits under `(0,0)` until its slot is pruned. -/
+example :
+    let e : Epoch := { stakes := [1, 1, 1, 1, 1], own := 0 }
+    let r := poolRun { epoch := e } [.vote ⟨.skip, 1, 0, 0⟩, .vote ⟨.notar, 1, 7, 1⟩, .vote ⟨.notar, 1, 7, 2⟩, .block (1, 7) (0, 0)]
+    (r.1.getSlot 1).map (fun st => (st.parents.lookup 7, stakeClause e st 7, ownVotedNot e st 7, st.sent)) =
+      some (some false, true, true, []) ∧
+    kidsOf r.1 (0, 0) = [(1, 7)] ∧ (r.1.getSlot 0).isNone = true ∧ Event.s2n 1 7 ∉ r.2 := by decide +kernel
+
 end AgModel.Pool
